@@ -382,6 +382,11 @@ def run_redefine(ctx, shape, how, first):
         rules['x'] = _parser.parse_rule('sym:x1')
     elif first == 'raises':
         rules['x'] = _parser.parse_rule('boom:b')
+    elif first == 'via-default':
+        # x stays undefined: the reference falls back to the default rule,
+        # and it is the default rule that is redefined in place
+        rules['default'] = _parser.parse_rule('sym:x1')
+    victim = 'default' if first == 'via-default' else 'x'
     enf = common.mk_enforcer(rules=policy.Rules(rules))
     la, x1, x2 = (ctx.zvar('leaf.a'), ctx.zvar('leaf.x1'),
                   ctx.zvar('leaf.x2'))
@@ -393,16 +398,16 @@ def run_redefine(ctx, shape, how, first):
     if first == 'undefined':
         common.require_decision(ctx, one, want(z3.BoolVal(False)),
                                 'redefine:first', detail={'shape': shape})
-    elif first == 'defined':
+    elif first in ('defined', 'via-default'):
         common.require_decision(ctx, one, want(x1), 'redefine:first',
                                 detail={'shape': shape})
     new = _parser.parse_rule('sym:x2')
     if how == 'item-assignment':
-        enf.rules['x'] = new
+        enf.rules[victim] = new
     elif how == 'set_rules-update':
-        enf.set_rules({'x': new}, overwrite=False)
+        enf.set_rules({victim: new}, overwrite=False)
     else:
-        enf.rules.update({'x': new})
+        enf.rules.update({victim: new})
     two = common.decision(ctx, enf, 'p', {})
     ctx.cover('redefine:' + first)
     ctx.observe('second', two)
@@ -416,7 +421,7 @@ def cubes_redefine(tier, seed):
     return [{'shape': s, 'how': h, 'first': f}
             for s in ('direct', 'not', 'and', 'chain', 'or')
             for h in ('item-assignment', 'set_rules-update', 'dict-update')
-            for f in ('undefined', 'defined', 'raises')]
+            for f in ('undefined', 'defined', 'raises', 'via-default')]
 
 
 def cubes_inline(tier, seed):
@@ -433,12 +438,14 @@ def cubes_inline(tier, seed):
 
 
 HARNESSES = {
-    'alias': {'fn': run_alias, 'cubes': cubes_alias},
+    'alias': {'fn': run_alias, 'cubes': cubes_alias,
+              'solver_timeout_ms': 120000},
     'inline': {'fn': run_inline, 'cubes': cubes_inline},
     'redefine': {'fn': run_redefine, 'cubes': cubes_redefine},
 }
 REQUIRED_COVER = ['alias:evaluated', 'alias:default-name', 'inline:compared',
-                  'redefine:undefined', 'redefine:raises']
+                  'redefine:undefined', 'redefine:raises',
+                  'redefine:via-default']
 
 
 def cube_weight(hname, p):
